@@ -14,7 +14,8 @@ MCConfigs ==
                lmtpBackend : BOOLEAN, binarymime : {TRUE}, dsn : {FALSE}] :
             ~c.lmtp /\ c.lmtpBackend }
 
-MCAlphabet == {"greet", "mail", "rcpt", "data", "bdat", "simple", "bad", "quit", "long", "panic", "cut"}
+\* (error counting is the MC_Err family: it multiplies every state by four)
+MCAlphabet == {"greet", "mail", "rcpt", "data", "bdat", "simple", "quit", "long", "panic", "cut", "mid"}
 
 \* Edge dump: every generated transition is printed once (VIEW hides `last`).
 DumpEdge ==
